@@ -43,9 +43,12 @@ type Transfer struct {
 	Progress progress.Printer
 
 	// state
-	Conn            *rsyncwire.Conn
-	Seed            int32
-	IOErrors        int32
+	Conn     *rsyncwire.Conn
+	Seed     int32
+	IOErrors int32
+	// Excluded reports whether the user's filter rules exclude the name;
+	// excluded destination entries are protected from --delete.
+	Excluded        func(name string) bool
 	Users           map[int32]mapping
 	Groups          map[int32]mapping
 	retouchDirPerms bool
